@@ -179,7 +179,10 @@ def canon_series(s):
     if isinstance(dt, pd.CategoricalDtype):
         cats = list(dt.categories)
         ccats = [canon_cell(c) for c in cats]
-        return [None if c < 0 else ccats[c] for c in s.cat.codes.tolist()]
+        # the reader builds categoricals through a fast path that skips
+        # validation, so a code may lie outside the category list
+        return [None if c < 0 else ccats[c] if c < len(ccats)
+                else ('badcode', c) for c in s.cat.codes.tolist()]
     kind = getattr(dt, 'kind', 'O')
     if kind == 'M':
         a = s.to_numpy().astype('datetime64[ns]')
@@ -252,9 +255,16 @@ class Knobs:
         writer.MAX_PAGE_SIZE, writer.DATAPAGE_VERSION = self.saved
 
 
-def codec_ok(codec, v2, has_cat):
-    # categorical + data page v2 + LZ4 does not round-trip today (C01 domain)
-    return not (codec == 'LZ4' and v2 and has_cat)
+def codec_ok(codec, knobs, has_cat):
+    """Combinations that do not survive a plain write->read today (C01 domain,
+    measured): categorical + data page v2 + LZ4; data page v2 + uncompressed
+    + a page that holds only nulls (reachable whenever pages are small)."""
+    v2 = knobs.get('v2')
+    if codec == 'LZ4' and v2 and has_cat:
+        return False
+    if codec is None and v2 and knobs.get('page') in (64, 256):
+        return False
+    return True
 
 
 # ------------------------------------------------------------ poison allocator
